@@ -671,3 +671,28 @@ func init() {
 		sc.Tx("mc.claim", w.Accts[4], J{"pools": []uint64{32767}}, &mctypes.MsgClaimRewards{Sender: w.Accts[4].Addr.String(), PoolIds: []uint64{32767}})
 	}
 }
+
+func init() {
+	// C09 (custody backed, short side): short positions hold their custody in the base currency inside the amm pool. A liquidity provider
+	// who withdraws most of the pool would take the base-currency holdings below that custody: the perpetual hook on the exit has to
+	// refuse it (it must look at the custody of BOTH sides).
+	scenarios["c09-liquidity-exit-against-short-custody"] = func(sc *Scn) {
+		w := sc.w
+		p := sc.std.Pools[2] // the deep oracle pool: 1,000,000 USDC : 200,000 ATOM
+		price := sc.std.Prices["ATOM"]
+		for i := 1; i <= 2; i++ {
+			u := w.Accts[i]
+			sc.Tx("perp.open", u, J{"pool": p.Id, "long": false, "collateral": []string{sc.std.USDC, "100000000000"}, "leverage": "1.5"},
+				&perptypes.MsgOpen{Creator: u.Addr.String(), Position: perptypes.Position_SHORT, Leverage: D("1.5"), TradingAsset: "uatom",
+					Collateral: coin(sc.std.USDC, math.NewInt(100_000_000_000)), TakeProfitPrice: price.Mul(D("0.5")), StopLossPrice: D("0"), PoolId: p.Id})
+		}
+		creator := w.Accts[0]
+		cm := w.App.CommitmentKeeper.GetCommitments(w.Ctx(), creator.Addr)
+		have := cm.GetCommittedAmountForDenom(p.ShareDen)
+		for _, tenths := range []int64{9, 8} {
+			sh := have.MulRaw(tenths).QuoRaw(10)
+			sc.TxDt(2*time.Hour, "amm.exit", creator, J{"pool": p.Id, "shareIn": sh.String(), "outDenom": ""},
+				&ammtypes.MsgExitPool{Sender: creator.Addr.String(), PoolId: p.Id, MinAmountsOut: sdk.Coins{}, ShareAmountIn: sh})
+		}
+	}
+}
